@@ -150,6 +150,15 @@ func (c *channel) enqueue(req request, responseChan chan<- response, streaming b
 	case <-c.parentCtx.Done():
 		c.routeResponse(req.msg.Metadata.MessageID, response{nid: c.node.ID(), err: fmt.Errorf("channel closed")})
 		return
+	case <-req.ctx.Done():
+		// the caller's context ended while waiting for the sender to accept the request,
+		// e.g., because the sender is blocked writing an earlier request to a node that is
+		// not reading. Every call type observes its own context, so no response is needed;
+		// just forget the router, since the request will never be sent.
+		if responseChan != nil {
+			c.deleteRouter(req.msg.Metadata.MessageID)
+		}
+		return
 	case c.sendQ <- req:
 	}
 }
